@@ -145,7 +145,12 @@ def method_flags(cls: ast.ClassDef, params: list[str], src: str):
         bound = _bind(call, params, m)
         if name == "unionByName":
             # hand-modelled loop; the operands are the re-projected DataFrames l_df / r_df
-            if not (isinstance(body[-1], ast.Return) and body[-1].value is call):
+            ret = body[-1]
+            direct = isinstance(ret, ast.Return) and ret.value is call
+            via_name = (isinstance(ret, ast.Return) and isinstance(ret.value, ast.Name) and any(
+                isinstance(st, ast.Assign) and st.value is call and len(st.targets) == 1
+                and isinstance(st.targets[0], ast.Name) and st.targets[0].id == ret.value.id for st in body))
+            if not (direct or via_name):
                 raise Untranslatable("unionByName: the _set_operation call is not the returned value")
             if dotted(call.func.value) != "l_df" or dotted(bound["other"]) != "r_df":
                 raise Untranslatable("unionByName: operands of _set_operation are no longer l_df / r_df")
